@@ -183,7 +183,7 @@ def task_affine(shape):
             c2 = chk.call(curves.Curve, got, P)
             chk.identities("curve-invariant", [("C", chk.call(c2, s * t + a), chk.call(c1, t))])
 
-        out += H.run_paths(ctx, fn, "S-sym", stag(shape, pos), dict(kind="c18.affine", shape=shape, pos=pos), body)
+        out += H.run_paths(ctx, fn, "S-sym", stag(shape, pos), dict(kind="c18.affine", shape=shape, pos=pos, task=("c18", "task_affine", [shape])), body)
     # normalize: exactly [0, 1]
     ctx = H.new_ctx(shape, ["t"])
     ctx.base.append(ctx.zv["k%d" % (nk - 1)] - ctx.zv["k0"] <= 1)
@@ -202,7 +202,7 @@ def task_affine(shape):
         chk.add("normalize-returns-self", r is k, "normalize returns the same instance")
         chk.exact("normalize-exact", list(k))
 
-    out += H.run_paths(ctx, "knotspace.KnotVector.normalize", "S-sym", stag(shape, None, ",normalize"), dict(kind="c18.normalize", shape=shape), body_n)
+    out += H.run_paths(ctx, "knotspace.KnotVector.normalize", "S-sym", stag(shape, None, ",normalize"), dict(kind="c18.normalize", shape=shape, task=("c18", "task_affine", [shape])), body_n)
     return out
 
 
@@ -229,6 +229,8 @@ def replay(o):
         r = eval(w["case"], {"KnotVector": KV, "uniform": G.uniform, "float": float})
         lim = (r[0], r[-1]) if hasattr(r, "degree") else r
         return tuple(lim) != (0.0, 1.0), (0.0, 1.0), tuple(lim)
+    if w.get("task"):
+        return H.generic_replay(o)
     return False, "see verifier output", "not replayed"
 
 
